@@ -710,7 +710,9 @@ pub fn exp2(d: P32E2) -> P32E2 {
 
     u = kernel::ldexp2(u, q.into());
 
-    if d < P32E2::new(-0x_6cb0_0000)
+    if d.is_nar() {
+        NAR
+    } else if d < P32E2::new(-0x_6cb0_0000)
     /* -150.*/
     {
         ZERO
@@ -760,7 +762,9 @@ pub fn exp10(d: P32E2) -> P32E2 {
 
     u = kernel::ldexp2(u, q.into());
 
-    if d < P32E2::new(-0x_6640_0000)
+    if d.is_nar() {
+        NAR
+    } else if d < P32E2::new(-0x_6640_0000)
     /* -50. */
     {
         ZERO
@@ -807,7 +811,9 @@ pub fn exp(d: P32E2) -> P32E2 {
 
     u = s * s * u + s + ONE;
 
-    if d < P32E2::new(-0x_6a80_0000)
+    if d.is_nar() {
+        NAR
+    } else if d < P32E2::new(-0x_6a80_0000)
     /* -104.*/
     {
         ZERO
